@@ -38,7 +38,8 @@ ASSUMPTIONS = [
     'a method dictionary shared between analyzers carries an explicit n_overlap (CoherenceAnalyzer writes its own default overlap of 32 into the caller\'s dictionary whatever NFFT is; that is C13/C14 matter, the spec is kept valid here)',
     'history cases: the tapers given to the model and used by the oracle come from scipy.signal.windows.dpss (agrees with utils.dpss_windows to ~1e-15 up to the sign of a taper, which no estimator output depends on), never from the process whose state is judged',
 ]
-TRUSTED_EXTRA = [
+TRUSTED_EXTRA = ['harness/translate_c04.py gen_ansess: which object each SpectralAnalyzer getter takes the sampling rate from, what __init__ stores under Fs, set_input = BaseAnalyzer.set_input -> Generated/AnalyzerFs.lean; the session model Model/C04Sess.lean is monitored by the `ansess` correspondence (rate used = frequency axis of the real result, series held)',
+                 
     'harness/translate_c04.py (index formulas Fn, Fl, last_freq, fxy_len regenerated from spectral.py into Generated/SpecIdx.lean)',
     'scipy.fftpack.fft / np.fft.fft = the DFT (the model computes its own O(N^2) DFT with twiddles cos/sin(2 pi m/N))',
     'welchCsdAt models matplotlib.mlab.csd / mlab.psd from the documented behaviour (zero-pad to NFFT, sliding segments every NFFT-noverlap, window, detrend none, conj(X) Y averaged over segments, one-sided doubling except DC/Nyquist, / Fs / sum(window^2), two-sided output rolled to start at the most negative frequency); mlab itself is not verified',
@@ -307,6 +308,11 @@ def run_wrapped(m, s):
         return {'f': f, key: fxy, 'flags': flags}
     elif via == 'SpectralAnalyzer.cpsd':
         f, fxy = build_analyzer(m, s).cpsd
+        if m.get('retarget') and RT_FLAGS:
+            fxy = np.asarray(fxy)
+            if not (op == 'welch' and M == 1):
+                fxy = fxy.reshape(M, M, -1)
+            return {'f': f, key: fxy, 'flags': list(RT_FLAGS)}
     elif via == 'get_spectra_bi':
         rows = s.reshape(-1, n)
         x, y = rows[0], rows[1]
@@ -413,7 +419,10 @@ def run_impl(m, s=None):
             f, P = an.periodogram
         else:
             f, P = an.spectrum_multi_taper
-        return {'f': f, 'P': P}
+        out = {'f': f, 'P': P}
+        if m.get('retarget') and RT_FLAGS:
+            out['flags'] = list(RT_FLAGS)
+        return out
     raise ValueError(op)
 
 
@@ -455,7 +464,99 @@ def build_analyzer(m, s):
     else:
         T = ts.TimeSeries(s, sampling_rate=Fs, time_unit=m.get('unit', 's'))
     m['Fs_eff'] = float(T.sampling_rate)
+    if m.get('retarget'):
+        return retargeted_analyzer(m, T, Fs, s)
     return build_analyzer_on(m, T, Fs)
+
+
+GETTERS = ['psd', 'cpsd', 'periodogram', 'spectrum_multi_taper', 'spectrum_fourier']
+JUDGED_GETTER = {'an_psd': 'psd', 'welch': 'cpsd', 'an_periodogram': 'periodogram', 'an_mt': 'spectrum_multi_taper'}
+RT_FLAGS = []
+
+
+def first_series(m, s, rt):
+    """the recording the analyzer is BUILT on: another sampling rate, another length, other contents (own spectrum per channel)"""
+    import nitime.timeseries as ts
+    n0 = int(rt['n0'])
+    lead = tuple(s.shape[:-1])
+    M = int(np.prod(lead)) if lead else 1
+    t = np.arange(n0)
+    rows = np.array([(2.0 + c) * np.cos(2 * np.pi * (c + 1.0) / (2.0 * (M + 1.0)) * t + 0.3 * c) + 0.25 * np.sin(1.7 * t + c) for c in range(M)])
+    x0 = rows.reshape(lead + (n0,)) if lead else rows[0]
+    if np.iscomplexobj(s):
+        x0 = x0 + 1j * np.roll(x0, 1, axis=-1) * 0.5
+    return ts.TimeSeries(x0, sampling_rate=m['Fs'] * rt['ratio'])
+
+
+def fourier_flags(m, an, T):
+    """spectrum_fourier of the series HELD: frequency axis at the held rate, Parseval of the raw transform"""
+    try:
+        f, F = an.spectrum_fourier
+    except Exception as e:
+        return [('retarget/spectrum_fourier-raises', 'spectrum_fourier raised %r after the re-target' % (e,))]
+    x = np.asarray(T.data)
+    n = x.shape[-1]
+    Fs = float(T.sampling_rate)
+    out = []
+    f = np.asarray(f, dtype=float)
+    F = np.asarray(F)
+    if np.iscomplexobj(x) and np.any(np.iscomplex(x)):
+        wantf = (np.arange(n) - n // 2) * Fs / n
+        tot = np.sum(np.abs(F) ** 2, axis=-1)
+    else:
+        wantf = np.arange(n // 2 + 1) * Fs / n
+        P = np.abs(F) ** 2
+        dbl = P[..., 1:(n + 1) // 2].sum(axis=-1) * 2
+        tot = P[..., 0] + dbl + (P[..., n // 2] if n % 2 == 0 else 0)
+    if f.shape != wantf.shape or not rel_close(f, wantf, 1e-9):
+        out.append(('retarget/spectrum_fourier-frequency-axis', 'spectrum_fourier: the frequency axis is not k*Fs/n of the series held (Fs = %r)' % Fs))
+    en = np.sum(np.abs(x) ** 2, axis=-1) * n
+    if np.shape(tot) != np.shape(en) or not rel_close(np.asarray(tot), np.asarray(en), 1e-9):
+        tot_, en_ = np.asarray(tot), np.asarray(en)
+        if tot_.shape == en_.shape and tot_.ndim >= 1 and rel_close(np.fft.ifftshift(tot_), en_, 1e-9):
+            # the energies are right but sit in other rows: fftshift was applied to the channel axes too
+            out.append(('spectrum_fourier-channels-rolled', 'spectrum_fourier of a complex multi-channel series: the transform of channel c is returned in row '
+                        '(c + M//2) %% M (np.fft.fftshift over ALL axes): sum |F|^2 per row = %s, n * sum |x|^2 per channel = %s' % (tot_.reshape(-1)[:4].tolist(), en_.reshape(-1)[:4].tolist())))
+        else:
+            out.append(('retarget/spectrum_fourier-parseval', 'spectrum_fourier: sum |F|^2 (folded) differs from n * sum |x|^2 of the series held, channel by channel'))
+    return out
+
+
+def retargeted_analyzer(m, T, Fs, s):
+    """ONE SpectralAnalyzer built on another recording (other rate / length / contents), read, then re-targeted with set_input
+    (and possibly reset) to the judged series; other getters are read in the recorded order before the judged one"""
+    import histories
+    rt = m['retarget']
+    del RT_FLAGS[:]
+    T0 = first_series(m, s, rt)
+    an = build_analyzer_on(m, T0, Fs * rt['ratio'] if rt.get('dict_fs') == 'first' else Fs)
+    held = []
+    for g in rt['pre']:
+        try:
+            held.append(getattr(an, g))
+        except Exception:
+            pass
+    an.set_input(T)
+    if rt['how'] == 'set_input+reset':
+        an.reset()
+    elif rt['how'] == 'set_input-twice':
+        an.set_input(T0)
+        for g in rt['pre'][:1]:
+            try:
+                held.append(getattr(an, g))
+            except Exception:
+                pass
+        an.set_input(T)
+    histories.scribble(held)
+    for g in rt['mid']:
+        if g == 'spectrum_fourier':
+            RT_FLAGS.extend(fourier_flags(m, an, T))
+            continue
+        try:
+            getattr(an, g)
+        except Exception:
+            pass
+    return an
 
 
 def build_analyzer_on(m, T, Fs):
@@ -783,6 +884,10 @@ def tag_of(m):
         t += '/alias-' + m['alias']
     if m.get('method_none'):
         t += '/method-None'
+    if m.get('distinct'):
+        t += '/distinct-channels'
+    if m.get('retarget'):
+        t += '/retarget-%s' % m['retarget']['how']
     if m.get('hist') or m.get('shared') or m.get('twice') or m.get('ts_reuse'):
         t += '/history'
     return t
@@ -1592,11 +1697,15 @@ MIX = {'quick': [('periodogram', 160), ('pcsd', 100), ('mtpsd', 90), ('mtcsd', 6
                  ('xperiodogram', 60), ('xpcsd', 40), ('xwelch', 60),
                  ('periodogram@dtype', 40), ('pcsd@dtype', 32), ('mtpsd@dtype', 32), ('mtcsd@dtype', 24), ('welch@dtype', 32), ('an_psd@dtype', 16),
                  ('an_periodogram@dtype', 16), ('an_mt@dtype', 24),
+                 ('an_psd@rt', 40), ('welch@rt', 20), ('an_periodogram@rt', 20), ('an_mt@rt', 20),
+                 ('pcsd@lab', 12), ('mtcsd@lab', 10), ('welch@lab', 14), ('mtpsd@lab', 8), ('periodogram@lab', 8), ('an_psd@lab', 6), ('an_mt@lab', 6),
                  ('h_sk', 70), ('h_mt', 30), ('h_call', 36), ('h_an', 16), ('tapers', 12)],
        'thorough': [('periodogram', 900), ('pcsd', 500), ('mtpsd', 400), ('mtcsd', 250), ('welch', 500), ('an_psd', 120), ('an_periodogram', 100), ('an_mt', 100),
                     ('xperiodogram', 400), ('xpcsd', 300), ('xwelch', 400),
                     ('periodogram@dtype', 200), ('pcsd@dtype', 160), ('mtpsd@dtype', 120), ('mtcsd@dtype', 96), ('welch@dtype', 160), ('an_psd@dtype', 64),
                     ('an_periodogram@dtype', 64), ('an_mt@dtype', 64),
+                    ('an_psd@rt', 240), ('welch@rt', 120), ('an_periodogram@rt', 120), ('an_mt@rt', 120),
+                    ('pcsd@lab', 60), ('mtcsd@lab', 50), ('welch@lab', 70), ('mtpsd@lab', 40), ('periodogram@lab', 40), ('an_psd@lab', 30), ('an_mt@lab', 30),
                     ('h_sk', 350), ('h_mt', 120), ('h_call', 150), ('h_an', 64), ('tapers', 48)]}
 
 
@@ -1616,9 +1725,134 @@ def gen_all(rng, tier, seed, pid=PID, mix=None):
                 put_data(m, x)
             if '@dtype' in kind:
                 m = with_dtype(m, DTYPE_CYCLE[(off + i) % len(DTYPE_CYCLE)])
+            if '@lab' in kind or '@rt' in kind:
+                m = with_distinct_channels(m, rng, i, min_channels=1 if '@rt' in kind else 3)
+            if '@rt' in kind:
+                m = with_retarget(m, i)
             out.append(m)
     return out
 
+
+RT_RATIOS = [0.5, 2.0, 3.7, 0.1, 1.0]
+RT_PRE = [[], ['@'], list(GETTERS), ['cpsd'], ['psd'], ['spectrum_fourier', '@']]
+RT_MID = [[], ['cpsd'], ['psd'], ['periodogram', 'spectrum_multi_taper'], list(GETTERS), list(reversed(GETTERS)), ['spectrum_fourier', 'cpsd'], ['psd', 'cpsd'],
+          ['spectrum_fourier'], ['cpsd', 'psd', 'spectrum_fourier']]
+RT_HOW = ['set_input', 'set_input', 'set_input+reset', 'set_input-twice']
+
+
+def with_retarget(m, i):
+    """DETERMINISTIC enumeration (by the case index) of analyzer re-target sequences: ratio of the two sampling rates x length of the first
+    recording x what was read before set_input x which OTHER getters are read, in which order, before the judged one x set_input /
+    set_input + reset / set_input twice; the rate a method dict carries is the judged series' or the first one's"""
+    op = 'welch' if m['op'] == 'welch' else m['op']
+    if op == 'welch':
+        m['via'] = 'SpectralAnalyzer.cpsd'
+        m.setdefault('unit', 's')
+    for k in ('shared', 'ts_reuse', 'twice', 'hist', 'method_none', 'alias'):
+        m.pop(k, None)
+    j = JUDGED_GETTER[op]
+    n = m['shape'][-1]
+    sub = lambda l: [j if g == '@' else g for g in l]
+    m['retarget'] = {'ratio': RT_RATIOS[i % len(RT_RATIOS)], 'n0': [n, n + 5, max(8, n // 2 + 3), 2 * n + 1][(i // 2) % 4],
+                     'pre': sub(RT_PRE[(i // 3) % len(RT_PRE)]), 'mid': [g for g in RT_MID[i % len(RT_MID)] if g != j],
+                     'how': RT_HOW[(i // 5) % len(RT_HOW)], 'dict_fs': ['judged', 'first'][(i // 7) % 2]}
+    return m
+
+
+def with_distinct_channels(m, rng, i, min_channels=3):
+    """every channel its own spectrum: own scale (1 + c/2) and own dominant frequency -- a value attributed to the wrong channel / the
+    wrong (i, j) role is then far from what Parseval / the model expect for that channel"""
+    s = get_data(m)
+    m.pop('alias', None)           # the rows are made different below: one array in both roles is the subject of the alias cases
+    if s.ndim == 1 or int(np.prod(s.shape[:-1])) < min_channels:
+        if m.get('via') in ('get_spectra_bi', 'mtm-direct') or m['op'] in ('periodogram', 'mtpsd') and s.ndim == 1 and min_channels == 1:
+            rows = s.reshape(-1, s.shape[-1])
+        else:
+            M = [3, 4, 5, 2, 6][i % 5] if min_channels > 1 else [1, 3, 4, 2][i % 4]
+            rows = np.array([np.roll(s.reshape(-1, s.shape[-1])[c % max(1, s.reshape(-1, s.shape[-1]).shape[0])], 3 * c) for c in range(M)])
+    else:
+        rows = s.reshape(-1, s.shape[-1])
+    M, n = rows.shape
+    t = np.arange(n)
+    amp = float(np.sqrt(np.mean(np.abs(rows) ** 2))) or 1.0
+    rows = np.array([(1 + 0.5 * c) * rows[c] + amp * (1 + 0.5 * c) * np.sin(2 * np.pi * (c + 1.0) / (2.0 * (M + 1.0)) * t + 0.7 * c) for c in range(M)])
+    if s.ndim >= 3 and int(np.prod(s.shape[:-1])) == M:
+        rows = rows.reshape(s.shape)
+    elif s.ndim == 1 and M == 1:
+        rows = rows[0]
+    m['distinct'] = True
+    return put_data(m, rows)
+
+
+
+# ------------------------------------------------------------------ analyzer sessions against the session model (op `ansess`)
+AN_TOK = {'psd': 'psd', 'cpsd': 'cpsd', 'periodogram': 'periodogram', 'spectrum_multi_taper': 'mt', 'spectrum_fourier': 'fourier'}
+SESS_RATES = [100, 250, 8, 1000, 50]
+
+
+def ansess_scenarios():
+    """DETERMINISTIC: method argument {None, dict without 'Fs', dict with an 'Fs' of its own} x event programs that read the five getters in
+    every rotation before / after set_input to series of other rates and lengths, with reset"""
+    G = list(GETTERS)
+    progs = []
+    for r in range(5):
+        rot = G[r:] + G[:r]
+        progs.append([('read', rot[0]), ('set', 1), ('read', rot[0])] + [('read', g) for g in rot[1:]])
+        progs.append([('set', 1)] + [('read', g) for g in rot])
+        progs.append([('read', g) for g in rot[:2]] + [('set', 2), ('reset',), ('read', rot[1]), ('set', 3), ('read', rot[0]), ('read', rot[1])])
+    progs.append([('read', 'psd'), ('reset',), ('read', 'psd'), ('set', 4), ('set', 1), ('read', 'cpsd'), ('read', 'psd')])
+    out = []
+    for k, pr in enumerate(progs):
+        out.append({'op': 'ansess', 'method': ['none', 'nofs', 7][k % 3], 'prog': [list(e) for e in pr], 'rate0': SESS_RATES[k % 5], 'k': k})
+    return out
+
+
+def run_ansess(sc):
+    import nitime.timeseries as ts
+    from nitime.analysis import SpectralAnalyzer
+    k = sc['k']
+    rates = [sc['rate0']] + [SESS_RATES[(k + j) % 5] for j in range(1, 5)]
+    lens = [40, 33, 52, 47, 36]
+
+    def series(j):
+        n = lens[(j + k) % 5]
+        t = np.arange(n)
+        return ts.TimeSeries(np.array([(1 + c) * np.sin(2 * np.pi * (c + 1) / 7.0 * t + j) + 0.1 * np.cos(0.9 * t) for c in range(2)]), sampling_rate=float(rates[j]))
+    meth = None if sc['method'] == 'none' else {'this_method': 'welch', 'NFFT': 16} if sc['method'] == 'nofs' else {'this_method': 'welch', 'NFFT': 16, 'Fs': float(sc['method'])}
+    NFFT = 64 if meth is None else 16
+    S = [series(j) for j in range(5)]
+    an = SpectralAnalyzer(S[0], method=meth, BW=None)
+    toks, line = [], []
+    for e in sc['prog']:
+        if e[0] == 'set':
+            an.set_input(S[e[1]])
+            line.append('s%d:%d' % (rates[e[1]], e[1]))
+        elif e[0] == 'reset':
+            an.reset()
+            line.append('r')
+        else:
+            g = e[1]
+            line.append(AN_TOK[g])
+            f = np.asarray(getattr(an, g)[0], dtype=float)
+            held = [j for j in range(5) if an.input is S[j]][0]
+            n = S[held].data.shape[-1]
+            used = f[1] * (NFFT if g in ('psd', 'cpsd') else n)
+            cand = sorted(set(rates) | ({float(sc['method'])} if isinstance(sc['method'], (int, float)) else set()), key=lambda r: abs(r - used))
+            rate = cand[0] if abs(cand[0] - used) <= 1e-6 * max(1.0, abs(used)) else used
+            toks.append('%s:%d@%s' % (AN_TOK[g], held, ('%d' % rate) if float(rate).is_integer() else repr(float(rate))))
+    um = sc['method'] if sc['method'] in ('none', 'nofs') else str(sc['method'])
+    return 'C04 ansess %s %d %s' % (um, sc['rate0'], ' '.join(line)), ' '.join(toks) or 'none'
+
+
+def ansess_cases():
+    out = []
+    for sc in ansess_scenarios():
+        try:
+            line, impl = run_ansess(sc)
+        except Exception as e:
+            line, impl = 'C04 ansess none 1', 'err ' + common.err_kind(e)
+        out.append(Case(line, impl, 'analyzer_session/rate-used', meta=None))
+    return out
 
 _RES = {}
 SKIPPED = {}
@@ -1650,6 +1884,7 @@ def cases(rng, tier, seed):
                 if c.meta is not None:
                     _RES[id(c)] = (r, cs)
             out += cs
+        out += ansess_cases()
     return out
 
 
